@@ -6,5 +6,6 @@ extern int g_host_depth_export;   // >0: allocations go to malloc, not the arena
 bool isStackAddr(const void* p);
 void taskReap(int id);
 void memReset();
-void setRealOffset(int64_t ns);
+void noPreemptEnter();
+void noPreemptLeave();
 }
